@@ -11,6 +11,7 @@ import (
 	"os"
 	"sort"
 	"sync"
+	"sync/atomic"
 
 	kio "github.com/flanglet/kanzi-go/v2/io"
 	"kzverif/fio"
@@ -44,6 +45,7 @@ type readerRun struct {
 	SrcFail        []int   `json:"srcFail,omitempty"` // source Read calls (1-based) that fail
 	SrcFailAtEnd   bool    `json:"srcFailAtEnd,omitempty"`
 	SrcErrWithData bool    `json:"srcErrWithData,omitempty"`
+	SrcDataErr     []int   `json:"srcDataErr,omitempty"` // source Read calls that return their data together with an error (once)
 }
 
 // expectedSlice returns the bytes a correct reader delivers for the block range of the run.
@@ -99,6 +101,10 @@ func execReaderRun(run *readerRun, stream []byte, expected []byte, inject func(p
 	src := &fio.Source{Data: stream, Chunks: run.Chunks, Fail: map[int]bool{}, FailAtEnd: run.SrcFailAtEnd, ErrWithData: run.SrcErrWithData}
 	for _, k := range run.SrcFail {
 		src.Fail[k] = true
+	}
+	src.DataErr = map[int]bool{}
+	for _, k := range run.SrcDataErr {
+		src.DataErr[k] = true
 	}
 	srcSeen := 0
 	ctx := run.R.Ctx()
@@ -384,6 +390,13 @@ func planReaderRun(mode string, k int, seed int64, thorough bool) (*readerRun, [
 		}
 	}
 	run.Shape = pick(rnd, gen.Shapes)
+	if mode == "c05" && k < 2 {
+		// one block in the multi-MiB regime of the inverse BWT, with a size hint: the decoder gives all its jobs to the block
+		B = 8 << 20
+		pair = [2]string{pick(rnd, []string{"BWT", "TEXT+BWT"}), "NONE"}
+		size = 5<<20 + rnd.Intn(1<<19)
+		run.Shape = "text"
+	}
 	run.Size = size
 	ck := pick(rnd, []uint{0, 32, 64})
 	if mode == "c02" {
@@ -397,8 +410,12 @@ func planReaderRun(mode string, k int, seed int64, thorough bool) (*readerRun, [
 		hint = 0
 	}
 	run.W = kz.Cfg{Transform: pair[0], Entropy: pair[1], Block: B, Jobs: uint(1 + rnd.Intn(4)), Ck: ck, Hint: hint}
-	jobsMenu := []uint{1, 2, 3, 4, 5, 8, 16, 64}
+	jobsMenu := []uint{1, 2, 3, 4, 5, 6, 7, 8, 16, 64}
 	run.R = kz.RCfg{Jobs: pick(rnd, jobsMenu)}
+	if mode == "c05" && k < 2 {
+		run.W.Hint = int64(size)
+		run.R.Jobs = []uint{3, 7}[k]
+	}
 	run.Lens = pick(rnd, lensMenu)
 	run.Chunks = pick(rnd, chunkMenu)
 	run.Perturb = pick(rnd, []int{0, 2, 4, 8})
@@ -482,12 +499,18 @@ func planReaderRun(mode string, k int, seed int64, thorough bool) (*readerRun, [
 			pr.Close()
 		}
 		ncalls := len(probe.Calls)
-		switch rnd.Intn(4) {
+		switch rnd.Intn(6) {
 		case 0:
 			run.SrcFailAtEnd = true
 		case 1:
 			run.SrcFailAtEnd = true
 			run.SrcErrWithData = true
+		case 2, 3:
+			// a transient failure reported together with data (sockets, pipes): the next call works again
+			run.SrcDataErr = []int{1 + rnd.Intn(ncalls)}
+			if len(run.Chunks) == 0 {
+				run.Chunks = []int{pick(rnd, []int{1000, 4096, 65536})}
+			}
 		default:
 			run.SrcFail = []int{1 + rnd.Intn(ncalls+1)}
 			if rnd.Intn(3) == 0 {
@@ -553,6 +576,9 @@ func cmdRecReader(args []string) int {
 		go func(k int) {
 			defer wg.Done()
 			defer func() { <-sem }()
+			if atomic.LoadInt32(&hangCount) >= 6 {
+				return
+			}
 			c, ok := gens[k]()
 			if !ok {
 				mu.Lock()
